@@ -64,7 +64,7 @@ def _run_one(dirpath, h, twin=False):
     env = {k: v for k, v in os.environ.items() if k != "PYTHONHASHSEED"}
     attempts = 0
     out = ""
-    for attempt in range(ATTEMPTS):
+    for attempt in range(getattr(h, 'attempts', ATTEMPTS)):
         attempts += 1
         try:
             p = subprocess.run(
